@@ -44,6 +44,9 @@ def invalid_programs(tier):
     add('under-replace-nothing', doc('a', el('p', 'x', I(bad(0)), replace=['text', py('nothing')]), 'b'), [])
     add('under-content-none', doc('a', el('p', el('q', I(bad(0))), content=['text', py('None')]), 'b'), [])
     add('on-error-guard', doc(el('p', 'x', I(bad(0)), onerror=['text', py("'E'")]), 'z'), [])
+    add('empty-after-prefix', doc(el('p', 'x', content=['text', bad(0, 'python:')], condition=py('cv')), 'mid',
+                                  el('q', 'y', condition=bad(1, 'python:'), define=[['local', 'w', py('c2')]])),
+        [['cv', 'bool', 0], ['c2', 'bool', 1]])
     add('omit', doc(el('p', 'x', omit=bad(0), condition=py('cv'))), [['cv', 'bool', 0]])
     add('attr-interp', doc(el('p', 'x', static=[['t', ['a', I(bad(0))]]], condition=py('cv'))), [['cv', 'bool', 0]])
     return out
